@@ -129,7 +129,7 @@ impl<'a> Checker<'a> {
                         (self.ln, idx),
                         format!(
                             "input {:?} cfg [{}] {:?} source, schedule {}: {}",
-                            lossy(input), cfg_show(cfg), src, script.to_json(), describe(&refs[ci], &got, &info)
+                            lossy_head(input), cfg_show(cfg), src, script.to_json(), describe(&refs[ci], &got, &info)
                         ),
                         json!({"input": bytes_json(input), "cfg": cfg, "source": format!("{:?}", src), "script": script.to_json()}),
                     );
@@ -175,7 +175,7 @@ impl<'a> Checker<'a> {
                         (self.ln, idx),
                         format!(
                             "input {:?} cfg [{}] async source, schedule {}: {}",
-                            lossy(input), cfg_show(cfg), s2.to_json(), describe(reference, &got, &info)
+                            lossy_head(input), cfg_show(cfg), s2.to_json(), describe(reference, &got, &info)
                         ),
                         json!({"input": bytes_json(input), "cfg": cfg, "source": "Async", "script": s2.to_json()}),
                     );
@@ -713,7 +713,7 @@ pub fn replay(case: &Value) -> Result<(), String> {
     mask_after_fatal(&mut r);
     let mut got = Vec::new();
     let info = run_src(src, &input, cfg, &script, &mut got);
-    println!("input: {:?}\nconfig: {}\nsource: {:?}\nschedule: {}", lossy(&input), cfg_show(cfg), src, script.to_json());
+    println!("input: {:?}\nconfig: {}\nsource: {:?}\nschedule: {}", lossy_head(&input), cfg_show(cfg), src, script.to_json());
     println!("slice reader:");
     for o in show_trace(&r) {
         println!("  {}", o.as_str().unwrap());
